@@ -23,7 +23,8 @@ func checkRejectedLeavesNothing(c *core.Ctx, rule string) {
 	if hit == nil || invoke == nil || commit == nil {
 		return
 	}
-	commits := ir.CallsTo(hit, commit)
+	// directly, or through a private helper that finishes the successful transaction
+	commits := ir.CallsThrough(hit, func(ci ssa.CallInstruction) bool { return ir.CalleeIs(ci, commit) }, 2)
 	c.Floor("CacheDB.Commit calls in HandleInvokeTransaction", len(commits), 1)
 	eng.Dominates(c, rule, hit, eng.ErrNilOf("NativeService.Invoke", invoke), ir.CallSinks(commits, "CacheDB.Commit"), "CacheDB.Commit", nil)
 }
